@@ -57,6 +57,14 @@ fn lit0() -> u8 {
     b
 }
 
+/// Any byte of a scheme name (`route_pattern::ParseState`: a first segment-like run of
+/// alphabetic characters followed by ':').
+fn sch() -> u8 {
+    let b: u8 = kani::any();
+    kani::assume(b.is_ascii_alphabetic());
+    b
+}
+
 /// Any ASCII byte that may appear in a parameter name.
 fn name() -> u8 {
     let b: u8 = kani::any();
@@ -114,6 +122,16 @@ fn same_fields(a: &RoutePattern, b: &RoutePattern) -> bool {
 /// The `RoutePattern` that `parse_str(text)` produces for a scheme-less text whose segments lie at
 /// the given `(start, end, is_parameter)` offsets.
 fn skeleton(text: &str, absolute: bool, segs: &[(usize, usize, bool)]) -> RoutePattern {
+    skeleton_s(text, None, absolute, segs)
+}
+
+/// As `skeleton`, for a text that starts with a scheme of `scheme` bytes followed by ':'.
+fn skeleton_s(
+    text: &str,
+    scheme: Option<usize>,
+    absolute: bool,
+    segs: &[(usize, usize, bool)],
+) -> RoutePattern {
     let mut segments = Vec::with_capacity(segs.len());
     let mut i = 0;
     while i < segs.len() {
@@ -126,7 +144,7 @@ fn skeleton(text: &str, absolute: bool, segs: &[(usize, usize, bool)]) -> RouteP
     }
     let p = RoutePattern {
         pattern: text.to_owned(),
-        scheme: None,
+        scheme,
         absolute,
         segments,
     };
